@@ -567,72 +567,117 @@ func ruleVarint(c *Ctx, r *RuleResult, encName, decName string) {
 		}
 		return vs[0], true
 	}
-	// encoder: x <= C (param compare)
-	encSmall, ok1 := one("single-byte threshold in "+encName, findConsts(enc, func(in ssa.Instruction) (int64, bool) {
-		if bo, ok := in.(*ssa.BinOp); ok && bo.Op == token.LEQ {
-			if _, isP := bo.X.(*ssa.Parameter); isP {
-				return constInt(bo.Y)
-			}
+	// ---- encoder, as polynomials over x and z = (number of leading zero bytes of x)
+	P := NewProver(c, enc)
+	var x ssa.Value
+	for _, p := range enc.Params {
+		if isInt(p.Type()) {
+			x = p
 		}
-		return 0, false
-	}))
-	// encoder: prefix byte  P - byte(zeroBytes)  stored to buf[0]
-	encPrefix, ok2 := one("length-prefix base in "+encName, findConsts(enc, func(in ssa.Instruction) (int64, bool) {
-		if bo, ok := in.(*ssa.BinOp); ok && bo.Op == token.SUB && isByte(bo.Type()) {
-			return constInt(bo.X)
-		}
-		return 0, false
-	}))
-	// encoder: loop bound  i < L - zeroBytes
-	encLen, ok3 := one("payload loop bound in "+encName, findConsts(enc, func(in ssa.Instruction) (int64, bool) {
-		if bo, ok := in.(*ssa.BinOp); ok && bo.Op == token.LSS {
-			if s, ok := bo.Y.(*ssa.BinOp); ok && s.Op == token.SUB {
-				return constInt(s.X)
-			}
-		}
-		return 0, false
-	}))
-	// encoder: total length  buf[:T-zeroBytes]
-	encTotal, ok4 := one("total length in "+encName, findConsts(enc, func(in ssa.Instruction) (int64, bool) {
-		if sl, ok := in.(*ssa.Slice); ok && sl.High != nil {
-			if s, ok := sl.High.(*ssa.BinOp); ok && s.Op == token.SUB {
-				return constInt(s.X)
-			}
-		}
-		return 0, false
-	}))
-	// encoder: zeroBytes = LeadingZeros64(x) >> S ; shift unit  M * (K - (i+zb))
-	encZS, ok5 := one("leading-zero shift in "+encName, findConsts(enc, func(in ssa.Instruction) (int64, bool) {
-		if bo, ok := in.(*ssa.BinOp); ok && bo.Op == token.SHR {
-			if call, ok := bo.X.(*ssa.Call); ok {
-				if f := call.Call.StaticCallee(); f != nil && f.String() == "math/bits.LeadingZeros64" {
-					return constInt(bo.Y)
+	}
+	if x == nil {
+		r.undecided("VARINT: %s has no integer parameter", encName)
+		return
+	}
+	encSmallVs := findConsts(enc, func(in ssa.Instruction) (int64, bool) {
+		if bo, ok := in.(*ssa.BinOp); ok && bo.X == x {
+			if k, ok := constInt(bo.Y); ok {
+				switch bo.Op {
+				case token.LEQ:
+					return k, true
+				case token.LSS:
+					return k - 1, true
 				}
 			}
 		}
 		return 0, false
-	}))
-	encUnit, ok6 := one("bits-per-byte factor in "+encName, findConsts(enc, func(in ssa.Instruction) (int64, bool) {
-		if bo, ok := in.(*ssa.BinOp); ok && bo.Op == token.MUL {
-			if v, ok := constInt(bo.X); ok {
-				return v, true
+	})
+	encSmall, ok1 := one("single-byte threshold in "+encName, encSmallVs)
+	var H, V0, T Poly
+	var zAtom *Atom
+	for _, b := range enc.Blocks {
+		for _, in := range b.Instrs {
+			switch v := in.(type) {
+			case *ssa.Slice:
+				if v.High != nil {
+					if _, isK := constInt(v.High); !isK {
+						H = P.polyLoose(v.High)
+					}
+				}
+			case *ssa.Store:
+				ia, ok := v.Addr.(*ssa.IndexAddr)
+				if !ok || !isByte(v.Val.Type()) {
+					continue
+				}
+				if k, isK := constInt(ia.Index); isK {
+					if k == 0 {
+						val := P.polyLoose(v.Val)
+						if val.add(P.polyLoose(x), -1).key() != "" { // not the direct byte(x) store
+							V0 = val
+						}
+					}
+					continue
+				}
+				// buf[I] = byte(x >> S)
+				cv := v.Val
+				for {
+					if cc, ok := cv.(*ssa.Convert); ok {
+						cv = cc.X
+						continue
+					}
+					break
+				}
+				if sh, ok := cv.(*ssa.BinOp); ok && sh.Op == token.SHR && stripAll(sh.X) == x {
+					I := P.polyLoose(ia.Index)
+					S := P.polyLoose(sh.Y)
+					T = S.add(I.scale(8), 1)
+				}
 			}
-			return constInt(bo.Y)
 		}
-		return 0, false
-	}))
-	encTop, ok7 := one("top byte index in "+encName, findConsts(enc, func(in ssa.Instruction) (int64, bool) {
-		if bo, ok := in.(*ssa.BinOp); ok && bo.Op == token.SUB && !isByte(bo.Type()) {
-			if inner, ok := bo.Y.(*ssa.BinOp); ok && inner.Op == token.ADD {
-				return constInt(bo.X)
+	}
+	if H == nil || V0 == nil || T == nil {
+		r.undecided("VARINT: %s: could not find the length (%v), prefix byte (%v) and payload stores (%v) of the multi-byte form", encName, H != nil, V0 != nil, T != nil)
+		return
+	}
+	// z: the single non-constant atom of H, defined as LeadingZeros64(x) >> 3
+	hm := H.monos()
+	if len(hm) != 1 || H[hm[0]] != -1 {
+		r.undecided("VARINT: %s: total length %s is not of the form C - zeroBytes", encName, P.showTerm(H))
+		return
+	}
+	P.atomsOf(Poly{hm[0]: 1}, func(a *Atom) { zAtom = a })
+	zOK := false
+	if zAtom != nil && zAtom.kind == aVal {
+		if bo, ok := zAtom.val.(*ssa.BinOp); ok {
+			var cnt ssa.Value
+			switch {
+			case bo.Op == token.SHR:
+				if k, ok := constInt(bo.Y); ok && k == 3 {
+					cnt = bo.X
+				}
+			case bo.Op == token.QUO:
+				if k, ok := constInt(bo.Y); ok && k == 8 {
+					cnt = bo.X
+				}
+			}
+			if call, ok := cnt.(*ssa.Call); ok {
+				if f := call.Call.StaticCallee(); f != nil && f.String() == "math/bits.LeadingZeros64" && stripAll(call.Call.Args[0]) == x {
+					zOK = true
+				}
 			}
 		}
-		return 0, false
-	}))
-	// decoder: buf[0] <= C ; n = int(b) - D ; n > Lmax ; x<<S
+	}
+	// ---- decoder constants
 	decSmall, ok8 := one("single-byte threshold in "+decName, findConsts(dec, func(in ssa.Instruction) (int64, bool) {
-		if bo, ok := in.(*ssa.BinOp); ok && bo.Op == token.LEQ && isByte(bo.X.Type()) {
-			return constInt(bo.Y)
+		if bo, ok := in.(*ssa.BinOp); ok && isByte(bo.X.Type()) {
+			if k, ok := constInt(bo.Y); ok {
+				switch bo.Op {
+				case token.LEQ:
+					return k, true
+				case token.LSS:
+					return k - 1, true
+				}
+			}
 		}
 		return 0, false
 	}))
@@ -645,8 +690,15 @@ func ruleVarint(c *Ctx, r *RuleResult, encName, decName string) {
 		return 0, false
 	}))
 	decMax, ok10 := one("maximum payload length in "+decName, findConsts(dec, func(in ssa.Instruction) (int64, bool) {
-		if bo, ok := in.(*ssa.BinOp); ok && bo.Op == token.GTR && isInt(bo.X.Type()) && !isByte(bo.X.Type()) {
-			return constInt(bo.Y)
+		if bo, ok := in.(*ssa.BinOp); ok && isInt(bo.X.Type()) && !isByte(bo.X.Type()) {
+			if k, ok := constInt(bo.Y); ok {
+				switch bo.Op {
+				case token.GTR:
+					return k, true
+				case token.GEQ:
+					return k - 1, true
+				}
+			}
 		}
 		return 0, false
 	}))
@@ -656,7 +708,7 @@ func ruleVarint(c *Ctx, r *RuleResult, encName, decName string) {
 		}
 		return 0, false
 	}))
-	if !(ok1 && ok2 && ok3 && ok4 && ok5 && ok6 && ok7 && ok8 && ok9 && ok10 && ok11) {
+	if !(ok1 && ok8 && ok9 && ok10 && ok11) {
 		return
 	}
 	check := func(ok bool, key, format string, a ...interface{}) {
@@ -666,15 +718,32 @@ func ruleVarint(c *Ctx, r *RuleResult, encName, decName string) {
 			r.find(key, c.pos(enc.Pos()), "varint encoder and decoder disagree: "+format+" does not hold", a...)
 		}
 	}
+	z := Poly{hm[0]: 1}
+	check(zOK, "dawg.varint:zero-byte count", "encoder counts leading zero BYTES as LeadingZeros64(x) >> 3 (%v)", zOK)
 	check(encSmall == decSmall, "dawg.varint:single-byte threshold", "encoder single-byte range <= %d equals decoder's <= %d", encSmall, decSmall)
 	check(decBase == decSmall+1, "dawg.varint:prefix base vs threshold", "decoder prefix base %d is threshold %d + 1", decBase, decSmall)
-	check(encPrefix-decBase == encLen, "dawg.varint:prefix base", "encoder prefix constant %d minus decoder base %d equals payload bound %d", encPrefix, decBase, encLen)
-	check(encTotal == encLen+1, "dawg.varint:total length", "encoder total length constant %d equals payload bound %d + 1", encTotal, encLen)
-	check(decMax == encLen, "dawg.varint:max length", "decoder accepts up to %d payload bytes, encoder emits up to %d", decMax, encLen)
-	check(encLen*encUnit == 64, "dawg.varint:payload width", "%d payload bytes of %d bits cover a uint64", encLen, encUnit)
-	check(int64(1)<<uint(encZS) == encUnit, "dawg.varint:zero-byte shift", "leading zeros >> %d counts bytes of %d bits", encZS, encUnit)
-	check(encTop == encLen-1, "dawg.varint:byte order", "encoder shifts by %d*(%d-(i+zeroBytes)): most significant byte first (top index %d = %d-1)", encUnit, encTop, encTop, encLen)
-	check(decShift == encUnit, "dawg.varint:decoder shift", "decoder accumulates x<<%d per byte, encoder uses %d bits per byte", decShift, encUnit)
+	// total length H = 1 + payload, payload = decMax - z
+	check(H.add(constP(decMax+1), -1).add(z, 1).key() == "", "dawg.varint:total length", "encoder total length %s equals 1 + %d - zeroBytes", P.showTerm(H), decMax)
+	// prefix byte announces exactly the payload length: V0 - decBase == H - 1
+	check(V0.add(constP(-decBase), 1).add(H, -1).add(constP(1), 1).key() == "", "dawg.varint:prefix base", "encoder prefix byte %s minus decoder base %d equals the payload length %s - 1", P.showTerm(V0), decBase, P.showTerm(H))
+	// byte at index p carries bits from 8*(H-1-p): S + 8p == 8*(H-1)
+	check(T.add(H.scale(8), -1).add(constP(8), 1).key() == "", "dawg.varint:byte order", "payload byte at index p is x >> (8*(length-1-p)): shift + 8*index = %s equals 8*(%s) - 8 (most significant byte first)", P.showTerm(T), P.showTerm(H))
+	check(decMax*8 == 64, "dawg.varint:max length", "decoder accepts up to %d payload bytes of 8 bits for a 64-bit value", decMax)
+	check(decShift == 8, "dawg.varint:decoder shift", "decoder accumulates x<<%d per byte", decShift)
+}
+
+func stripAll(v ssa.Value) ssa.Value {
+	for {
+		switch x := v.(type) {
+		case *ssa.Convert:
+			v = x.X
+			continue
+		case *ssa.ChangeType:
+			v = x.X
+			continue
+		}
+		return v
+	}
 }
 
 func init() {
@@ -686,7 +755,7 @@ func init() {
 		run: func(c *Ctx, tier string) []*RuleResult {
 			g := &RuleResult{Rule: "GRAMMAR", Doc: "L(GobEncode) ⊆ L(GobDecode) over wire tokens U (varint) and B (raw byte)", MinInst: 10}
 			ruleGrammar(c, g, "(*dawg.Dawg).GobEncode", "(*dawg.Dawg).GobDecode", "dawg.encodeUint64", "dawg.decodeUint64")
-			v := &RuleResult{Rule: "VARINT", Doc: "encodeUint64 / decodeUint64 agree on threshold, prefix base, lengths, byte order", MinInst: 9}
+			v := &RuleResult{Rule: "VARINT", Doc: "encodeUint64 / decodeUint64 agree on threshold, prefix base, lengths, byte order (encoder read as polynomials over x and its number of leading zero bytes)", MinInst: 8}
 			ruleVarint(c, v, "dawg.encodeUint64", "dawg.decodeUint64")
 			ow := &RuleResult{Rule: "OVERWRITE", Doc: "GobDecode assigns every field of every node on every iteration of a loop (or resets the receiver as a whole): no stale state of a reused receiver survives", MinInst: 5}
 			ruleOverwrite(c, ow, "(*dawg.Dawg).GobDecode", "dawg", "Dawg")
